@@ -126,4 +126,27 @@ theorem related_mono {d k f : Path} (hin : pathIsInside d k = true) (hr : Relate
     · right; right
       exact (h.trans (List.prefix_append d ['/'])).trans hr
 
+theorem anyOverlap_eq (ns fs : List Path) :
+    anyOverlap ns fs = (!(fs.isEmpty || ns.isEmpty) &&
+      (ns.any (fun n => fs.contains n) || ns.any (fun n => fs.any (fun f => overlapDir n f)))) := by
+  unfold anyOverlap
+  cases h1 : (fs.isEmpty || ns.isEmpty)
+  · cases h2 : (ns.any fun n => fs.contains n)
+    · simp
+    · simp
+  · simp
+
+/-- more logical names of the walked entry can only add references -/
+theorem anyOverlap_cons_mono (p : Path) (alts fs : List Path) (h : anyOverlap [p] fs = true) :
+    anyOverlap (p :: alts) fs = true := by
+  rw [anyOverlap_eq] at h ⊢
+  cases hf : fs.isEmpty with
+  | true => simp [hf] at h
+  | false =>
+    simp only [hf, List.isEmpty_cons, Bool.or_false, Bool.not_false, Bool.true_and, List.any_cons,
+      List.any_nil, Bool.or_eq_true] at h ⊢
+    rcases h with h | h
+    · exact Or.inl (Or.inl h)
+    · exact Or.inr (Or.inl h)
+
 end Martian.Vdr
